@@ -4,7 +4,7 @@ CONSTANTS
   Fns = {"Println", "Printf", "Print", "Sprint", "Errorf"}
   Shs = {"-", "echo", "print", "printf", "println", "errorf", "sprint", "fprintln", "fmt", "toUpper"}
   ScopeAware = TRUE
-  LambdaParamsScoped = FALSE
-  BareReturnLambda2 = FALSE
+  LambdaParamsScoped = TRUE
+  BareReturnLambda2 = TRUE
 INVARIANTS TypeOK Confluent ImportSound Export
 PROPERTIES Stable Terminates
